@@ -79,6 +79,17 @@ def run(v, tier, rng):
         # interleave: definitions may also sit between uses of earlier names (define-before-use kept)
         inlined = head + [("mn", st[1], [subst(o, defs) for o in st[2]]) for st in us]
         pairs.append((with_equ, inlined, mode, depth))
+    # shared sub-definitions behind a forward reference (an acyclic graph in which one name is reached along two paths)
+    for g in range(12 if tier == "quick" else 200):
+        mode = rng.choice([16, 32])
+        k1, k2, k3 = rng.choice([1, 2, 7]), rng.choice([2, 3, 16]), rng.choice([3, 5, 100])
+        nb, nc, ne, nx = ("D%d_%s" % (g, c) for c in "BCEX")
+        defs = {nx: A.num(k3), nb: A.sum_of([("+", ("id", nx)), ("+", ("num", k1))]), nc: A.sum_of([("+", ("id", nb)), ("+", ("num", k2))]),
+                ne: A.sum_of([("+", ("id", nb)), ("+", ("id", nc))])}
+        deforder = rng.choice([[nb, nc, ne, nx], [nc, nb, ne, nx], [ne, nb, nc, nx], [nx, nb, nc, ne], [nb, nx, nc, ne]])
+        us = uses(rng, [ne, nc, nb], mode)
+        head = [("config", "BITS", ("num", 32))] if mode == 32 else []
+        pairs.append((head + [("equ", nm, defs[nm]) for nm in deforder] + us, head + [("mn", st[1], [subst(o, defs) for o in st[2]]) for st in us], mode, 3))
     cases = []
     for i, (a, b, _, _) in enumerate(pairs):
         cases.append({"id": "e%d" % i, "srcs": [A.p_program(a)]})
